@@ -61,7 +61,7 @@ theorem protected_header (p : ProtectedHeader) (hw : ProtectedHeader.WF maxNest 
     ∃ b p', ProtectedHeader.cborBstr p = .ok (.bytes b) ∧ phFromBstr (.bytes b) = .ok p' ∧ ProtectedHeader.erase p' = ProtectedHeader.erase p ∧
       p'.originalData = some b := ph_api_rt p hw
 theorem signature (s : CoseSignature) (hw : CoseSignature.WF maxNest s) :
-    ∃ x s', CoseSignature.toValue s = .ok x ∧ sigFromValue x = .ok s' ∧ CoseSignature.erase s' = CoseSignature.erase s := sig_api_rt s hw
+    ∃ x s', CoseSignature.toValue s = .ok x ∧ sigFromValue x = .ok s' ∧ CoseSignature.erase s' = CoseSignature.erase s ∧ SigSame s' s := sig_api_rt s hw
 
 /-- COSE_Sign1 = [protected bstr, unprotected map, payload or nil, signature bstr]. -/
 theorem sign1 (m : CoseSign1) (hp : ProtectedHeader.WF maxNest m.protected_) (hu : Header.WF maxNest m.unprotected) :
@@ -74,7 +74,8 @@ theorem sign (m : CoseSign) (hp : ProtectedHeader.WF maxNest m.protected_) (hu :
     ∃ b y vs m', m.toValue = .ok (.array [.bytes b, y, optBytesToValue m.payload, .array vs]) ∧
       CoseSign.fromValue (.array [.bytes b, y, optBytesToValue m.payload, .array vs]) = .ok m' ∧
       ProtectedHeader.erase m'.protected_ = ProtectedHeader.erase m.protected_ ∧ Header.erase m'.unprotected = Header.erase m.unprotected ∧
-      m'.payload = m.payload ∧ eraseSigs m'.signatures = eraseSigs m.signatures ∧ m'.protected_.originalData = some b := sign_rt m hp hu hs
+      m'.payload = m.payload ∧ eraseSigs m'.signatures = eraseSigs m.signatures ∧ m'.protected_.originalData = some b ∧
+      sigsSame m'.signatures m.signatures := sign_rt m hp hu hs
 /-- COSE_Mac0 = [protected, unprotected, payload or nil, tag]. -/
 theorem mac0 (m : CoseMac0) (hp : ProtectedHeader.WF maxNest m.protected_) (hu : Header.WF maxNest m.unprotected) :
     ∃ b y m', m.toValue = .ok (.array [.bytes b, y, optBytesToValue m.payload, .bytes m.tag]) ∧
